@@ -5,7 +5,7 @@ from gen import Gen, Pool, py_proto
 from canon import val_proto, errors_proto, canon_model_val, canon_errors
 from apischema import deserialize, ValidationError, settings
 
-DRIVER = os.path.join(HERE, "..", ".lake", "build", "bin", "driver")
+DRIVER = os.path.join(HERE, "..", "lean", ".lake", "build", "bin", "driver")
 
 def fresh(d):
     """rebuild the datum the way `json.loads` would: every float (NaN included) is its own object"""
